@@ -513,6 +513,9 @@ def _finish(res, sess, senv, circuit_desc, semiring, nparams, sizes, ops):
     res["queries"] += sess.q.n_queries
     res["solver_s"] += sess.q.time
     res["inconclusive"].extend(sess.inconclusive)
+    res["twins"] = res.get("twins", 0) + sess.twins
+    res["cvc5_checked"] = res.get("cvc5_checked", 0) + sess.cvc5_checked
+    res["cvc5_unknown"] = res.get("cvc5_unknown", 0) + sess.cvc5_unknown
     res["stubs"] = sorted(senv.ctx.stubs_used)
     res["hash"] = case_hash([circuit_desc, semiring])
     res["nontrivial"] = nparams >= 2
